@@ -129,6 +129,14 @@ Definition detect_map_first {K V : Type} (deep : V -> bool) (order : list (K * V
 Definition detect_map_all {K V : Type} (deep : V -> bool) (order : list (K * V)) : bool :=
   existsb (fun kv => deep (snd kv)) order.
 
+(** ** A9 (FINDING, latent). governance/method.go executeCommitDpos1 / executeCommitDpos2:
+       for _, peerPoolItem := range peerPoolMap.PeerPoolMap { ... if peerPoolItem.Status == BlackStatus { blackQuit(..) } ... }
+    blackQuit begins with appCallTransferOnt(governance, governance, peerPoolItem.InitPos): the ONT contract
+    appends one transfer notification carrying InitPos per black-listed peer, in visiting order.  (The
+    state effects of the loop commute: per-peer records, additive totals.)  Entry = (peer key, InitPos). *)
+Definition commit_dpos_black_events {K : Type} (black : K * N -> bool) (order : list (K * N)) : list N :=
+  range_fold (fun acc kv => if black kv then acc ++ [snd kv] else acc) order [].
+
 (** * Part B -- the site table *)
 
 Inductive lemma_id :=
